@@ -208,6 +208,33 @@ def loop_progress(F, lp):
     return False, "no progress argument for the condition `%s`" % show(tested)[:60]
 
 
+def d_table_len(F, s):
+    """`word.len() - k` where `word` is the first component of a row found in a constant table of string literals that are all at least k long"""
+    n = s.node
+    if not (n.get("k") == "Binary" and n["op"] == "Sub" and lit(n["rhs"]) and lit(n["rhs"])[0] == "i" and call_is(peel(n["lhs"]), "::len")):
+        return None
+    wid = q.base_var(peel(n["lhs"])["args"][0])
+    k = lit(n["rhs"])[1]
+    for e in q.context(s.path, n):
+        if e[0] != "if" or not e[2] or peel(e[1]).get("k") != "LetCond":
+            continue
+        lc = peel(e[1])
+        fnd = peel(lc["arg"])
+        if not (call_is(fnd, "Iterator::find") and variant_of(lc["pat"]) == ("Option", "Some")):
+            continue
+        pat = strip_ref(subpat(lc["pat"], 0))
+        if not (pat is not None and pat.get("k") == "Leaf" and any(sp_["i"] == 0 and strip_ref(sp_["p"]).get("id") == wid for sp_ in pat["sub"])):
+            continue
+        src = peel(fnd["args"][0])
+        while src.get("k") == "Call" and (src.get("fn") or "").endswith(("::iter", "IntoIterator::into_iter", "Deref::deref")) and len(src["args"]) == 1:
+            src = peel(src["args"][0])
+        if src.get("k") == "Array" and src.get("const") and src["fields"]:
+            words = [lit(peel(r)["fields"][0]) for r in src["fields"] if peel(r).get("k") == "Tuple" and peel(r)["fields"]]
+            if len(words) == len(src["fields"]) and all(w and w[0] == "s" and len(w[1].encode()) >= k for w in words):
+                return ("D-TABLE-LEN", "every word of the constant table %s is at least %d bytes long" % (src.get("const"), k))
+    return None
+
+
 def d_tokens_index(F, s):
     """tokens[i - 2] inside `for token in &tokens` where i counts the iterations."""
     n = s.node
@@ -284,7 +311,7 @@ def run(rep):
     import c07
     panic.LOCKSTEP_PAIR_IDS = {(r[1], r[0]) for r in c07.lockstep_roles(F).values()}
     panic.LOCKSTEP_OK = all(i.status == "discharged" for i in rep.instances if i.rule == "LOCKSTEP") and any(i.rule == "LOCKSTEP" for i in rep.instances)
-    R = run_panic(rep, F, ["LOAD"], floor=20, extra_rules=(d_tokens_index,))
+    R = run_panic(rep, F, ["LOAD"], floor=20, extra_rules=(d_tokens_index, d_table_len))
     # ---------------------------------------------------------------- PROGRESS
     tk_loops = []
     tk = F.fn("<std::string::String as tokeniser::Tokeniser>::tokenise")
